@@ -9,7 +9,8 @@ P2048 = None
 def load2048():
     global P2048, Q2048, G2048
     import re
-    t = open("/verif/coq/Generated/Constants.v").read()
+    import os
+    t = open(os.path.join(os.path.dirname(os.path.dirname(os.path.abspath(__file__))), "coq", "Generated", "Constants.v")).read()
     P2048 = int(re.search(r"p2048 : Z := (\d+)", t).group(1))
     Q2048 = int(re.search(r"q2048 : Z := (\d+)", t).group(1))
     G2048 = int(re.search(r"g2048 : Z := (\d+)", t).group(1))
